@@ -66,12 +66,23 @@ structure State where
   sp : Option Call := none  -- the ProcWalletSetPasswd call that holds wallet.mtx, if any
   deriving DecidableEq, Repr
 
+/-- the `Addr` field of a SignRawTx request: empty, an address of a wallet account, any other address. -/
+inductive AddrKind where
+  | none | wallet | foreign
+  deriving DecidableEq, Repr
+
+/-- the `Privkey` field of a SignRawTx request: empty, a well-formed private key, anything else ("0x00", bad hex). -/
+inductive PrivKind where
+  | none | valid | garbage
+  deriving DecidableEq, Repr
+
 inductive Label where
   | unlock (pwOk ticketOnly timeout : Bool)
   | lock
   | timer
   | read
   | guarded
+  | sign (addr : AddrKind) (priv : PrivKind)   -- ProcSignRawTx with both key-selecting fields
   | spBegin (oldOk newValid writeOk : Bool)
   | spStep
   | restart
@@ -81,10 +92,20 @@ inductive Out where
   | ok
   | err (e : String)
   | flag (locked : Bool)
-  | secret
+  | secret                  -- a stored secret was returned / a stored key signed
+  | supplied                -- the request was signed with the key the caller supplied
   | mid
   | ret (r : Res)
   deriving DecidableEq, Repr
+
+/-- ProcSignRawTx, key selection as written: `Addr` wins over `Privkey`; only the `Addr` branch needs the wallet
+(checkWalletStatus, then the stored key of `Addr`); the `Privkey` branch signs with the caller's key in any state. -/
+def signOut (locked : Bool) : AddrKind → PrivKind → Out
+  | .wallet, _ => if locked then .err "ErrWalletIsLocked" else .secret
+  | .foreign, _ => if locked then .err "ErrWalletIsLocked" else .err "ErrAddrNotExist"
+  | .none, .valid => .supplied
+  | .none, .garbage => .err "ErrPrivkey"
+  | .none, .none => .err "ErrNoPrivKeyOrAddr"
 
 def firstOp (v : Variant) : Mop := if v.verifyFirst then .verify else .load
 
@@ -131,6 +152,10 @@ def step (v : Variant) (s : State) : Label → Option (State × Out)
     match s.sp with
     | some _ => none
     | none => if s.locked then some (s, .err "ErrWalletIsLocked") else some (s, .secret)
+  | .sign a p =>
+    match s.sp with
+    | some _ => none
+    | none => some (s, signOut s.locked a p)
   | .spBegin oldOk newValid writeOk =>
     match s.sp with
     | some _ => none
